@@ -16,6 +16,7 @@ var rgFlags struct {
 	seed           int64
 	dangling       bool
 	wf             bool
+	chain          int
 }
 
 func init() {
@@ -25,6 +26,7 @@ func init() {
 			fs.IntVar(&rgFlags.docs, "docs", 3, "documents")
 			fs.IntVar(&rgFlags.count, "count", 10, "graphs per input line")
 			fs.Int64Var(&rgFlags.seed, "seed", 1, "seed")
+			fs.IntVar(&rgFlags.chain, "chain", 0, "emit acyclic reference chains of this many links instead of random graphs")
 			fs.BoolVar(&rgFlags.dangling, "dangling", false, "allow refs to nothing")
 			fs.BoolVar(&rgFlags.wf, "wf", true, "only well-founded parameter/response/path-item chains")
 		},
@@ -33,6 +35,27 @@ func init() {
 				Shard int `json:"shard"`
 			}
 			_ = json.Unmarshal(line, &c)
+			if rgFlags.chain > 0 {
+				// acyclic chains of rgFlags.chain links: pure references, and structures each holding the next reference
+				if c.Shard == 0 {
+					k := rgFlags.chain
+					pure := make([]absNode, 0, k+1)
+					for i := 1; i <= k; i++ {
+						pure = append(pure, absNode{T: "ref", Kind: "s", To: i + 1})
+					}
+					pure = append(pure, absNode{T: "leaf", Kind: "s"})
+					emit(pure)
+					st := make([]absNode, 0, 2*k+1)
+					for i := 0; i < k; i++ {
+						st = append(st, absNode{T: "st", Kind: "s"}, absNode{T: "ref", Kind: "s", Owner: 2*i + 1, To: 2*i + 3})
+					}
+					st = append(st, absNode{T: "leaf", Kind: "s"})
+					emit(st)
+					mixed := append([]absNode{{T: "st", Kind: "p"}, {T: "ref", Kind: "s", Owner: 1, To: 3}}, shift(pure, 2)...)
+					emit(mixed)
+				}
+				return nil
+			}
 			rng := rand.New(rand.NewSource(rgFlags.seed*1000003 + int64(c.Shard)))
 			made := 0
 			for tries := 0; made < rgFlags.count && tries < rgFlags.count*200; tries++ {
@@ -190,6 +213,21 @@ func randomGraph(rng *rand.Rand, n, docs int, dangling bool) []absNode {
 		g[i].Doc = used[g[i].Doc]
 	}
 	return g
+}
+
+// shift renumbers the references of g for a graph that has off nodes before it.
+func shift(g []absNode, off int) []absNode {
+	out := make([]absNode, len(g))
+	for i, a := range g {
+		if a.To > 0 {
+			a.To += off
+		}
+		if a.Owner > 0 {
+			a.Owner += off
+		}
+		out[i] = a
+	}
+	return out
 }
 
 func wellFounded(g []absNode) bool {
